@@ -377,4 +377,75 @@ theorem unshallow_before_objects_counterexample :
 
 end shallow
 
+/-! ## 6. After the crash: retries.  A lock file is never evidence of presence -/
+
+section retry
+
+/-- Running an operation AGAIN on what a crash left: if the checker accepts the program `p` and, for every
+crash prefix `k`, accepts the program `qs[k]` the re-run issued from there (recorded from the real code; a re-run
+that stops with an error — `FileLocked` on a stale lock — contributes the calls it made before the error, so in
+particular it stops before any ref write it did not get to), then every state the re-run passes through,
+and the state it ends in, is `Recoverable` — for every start state satisfying the precondition. -/
+theorem retry_after_crash_safe (spec : Spec) (p : List Call) (qs : List (List Call))
+    (hc : checkProgram spec p = true) (hq : retryOK spec p qs = true)
+    (G GP : Nat → List Nat) (s : FS) (hpre : Pre spec G GP s) (k : Nat) (hk : k < qs.length) (j : Nat) :
+    Recoverable spec G GP s (run ((qs.getD k []).take j) (run (p.take k) s)) :=
+  inv_recoverable (retry_sound hpre hc hq k hk j)
+
+/-- The recorded re-runs (every crash prefix of the loose-object scenarios) are accepted, hence safe. -/
+theorem recorded_retries_crash_safe :
+    ∀ e ∈ Gen.TracesChecked.retried, ∀ (G GP : Nat → List Nat) (s : FS), Pre e.1 G GP s →
+      ∀ k, k < e.2.2.length → ∀ j,
+        Recoverable e.1 G GP s (run ((e.2.2.getD k []).take j) (run (e.2.1.take k) s)) := by
+  intro e he G GP s hpre k hk j
+  have h1 := Gen.TracesChecked.retried_checked
+  rw [List.all_eq_true] at h1
+  have := h1 e he
+  rw [Bool.and_eq_true] at this
+  exact retry_after_crash_safe e.1 e.2.1 e.2.2 this.1 this.2 G GP s hpre k hk j
+
+/-- `DiskObjectStore.add_object` lets a held/stale `<sha>.lock` surface as `FileLocked` (AST of the code and a
+recorded run under an existing lock, both regenerated every run). -/
+theorem add_object_lock_propagates :
+    Gen.TracesChecked.addObjectSwallowsLock = false ∧ Gen.TracesChecked.addObjectUnderLockRaises = true :=
+  Gen.TracesChecked.add_object_lock_propagates
+
+/-- The crash left `<o1>.lock` (tmp 1) behind; the commit that wanted object 1 is retried. -/
+def specStaleLock : Spec :=
+  { edges := [(1, [], [])],
+    known := [(.tmp 1, some .junk), (.loose 1, none), (.ref 1, none), (.packedRefs, none), (.shallow, none),
+              (.tmp 2, none)],
+    newRefs := [(1, some (.sha 1))], newPlain := [], garbage := [] }
+
+/-- As coded: the retry fails with `FileLocked` before doing anything — trivially safe, … -/
+theorem retry_stops_at_stale_lock_accepted : checkProgram specStaleLock [] = true := by decide
+
+/-- … skipping the write is accepted only on the evidence of the FINAL path (here: once it is there), -/
+theorem skip_on_final_path_accepted :
+    checkProgram { specStaleLock with known := (.loose 1, some (.obj 1)) :: specStaleLock.known }
+      [.skip 1 (.loose 1), .write (.tmp 2) (.refSha 1), .rename (.tmp 2) (.ref 1)] = true := by decide
+
+/-- … and NEVER on the evidence of the lock file ("somebody is writing it, so it will be there"): -/
+def progLockAsPresence : List Call :=
+  [.skip 1 (.tmp 1), .write (.tmp 2) (.refSha 1), .rename (.tmp 2) (.ref 1)]
+
+theorem lock_is_not_presence_rejected : checkProgram specStaleLock progLockAsPresence = false := by decide
+
+/-- the checker rejects it at the skip itself, before any ref is touched -/
+theorem lock_is_not_presence_rejected_at_skip : firstUnsafe specStaleLock progLockAsPresence = some 0 := by
+  decide
+
+/-- and rightly so: the ref ends up naming an object that nobody ever wrote. -/
+theorem lock_as_presence_counterexample :
+    ∃ G GP s, Pre specStaleLock G GP s ∧
+      ¬ Recoverable specStaleLock G GP s (run (progLockAsPresence.take 3) s) := by
+  refine ⟨graphOf specStaleLock, parentsOf specStaleLock, toFS specStaleLock.known,
+    pre_of_check _ (by decide), fun h => ?_⟩
+  have hv := h.consistent 1 ⟨1, 1, by decide, ReachFrom.refl 1⟩
+  rcases hv with hv | ⟨p, k, objs, hp, _, _⟩
+  · exact absurd hv (by decide)
+  · simp [run, step, upd, toFS, lk, specStaleLock, progLockAsPresence] at hp
+
+end retry
+
 end Dulwich.Props.C09
